@@ -13,6 +13,8 @@
 (*   Resolve       expand(), second loop: sort, skip on tie, addBarcode(index, origin, distance)   *)
 (*   Lookup(q)     getIndexCorrectedBarcodeAndHammingDistance: exact -> extended -> lazy load      *)
 (*   Answer        the recursive call after a lazy load (try_lazy_load_pending=False)              *)
+(*   GetItem       BarcodeParser.__getitem__ (parser[alias]): the other public access that loads a     *)
+(*                 pending alias (scCHIC reads parser['celseq2'] before any lookup)                    *)
 (*                                                                                                *)
 (* Letters are 1..A; letter A plays the role of 'N' = alphabet[-1] of hamming_circle              *)
 (* (replacement letters are alphabet[0..A-2]; replacing a letter by itself yields 'N').           *)
@@ -26,6 +28,7 @@
 (*   "circle_noN"  hamming_circle without the N substitution (self-replacement keeps the letter)   *)
 (*   "idx_line"    ParseLine stores the line number instead of the index column                    *)
 (*   "falsy_index" Lookup tests `barcodes.get(q)` for truth: a member with cell index 0 is missed     *)
+(*   "getitem_noexpand"  __getitem__ loads the pending file but skips the Hamming expansion             *)
 (*   "stale_ext"   AS CODED for two files mapping to one alias: expand() merges into the old        *)
 (*                 extendedBarcodes, entries that became ties stay assigned (observation, see      *)
 (*                 docs/C03.md; outside the statement's "one whitelist per alias")                 *)
@@ -38,6 +41,7 @@ CONSTANTS A,         \* alphabet size (letters 1..A, A = 'N')
           Fmts,      \* subset of {"bc", "bc_idx", "idx_bc"}
           NFiles,    \* set of file counts per alias, subset of {1, 2}
           Lazy,      \* subset of BOOLEAN
+          Touches,   \* how a lazy alias is first touched: subset of {"lookup", "getitem"}
           Variant
 
 AllStrings == [1 .. L -> 1 .. A]
@@ -66,8 +70,9 @@ VARIABLES files,    \* the barcode directory: sequence of files mapping to the o
           ext,                             \* extendedBarcodes[alias] : string -> <<index, origin, distance>>
           pending,                         \* alias in pending_files (value: file number) or 0
           space, ci,                       \* hammingSpace of the running expand(), position in `order`
-          want, last                       \* lookup being served across a lazy load; last answer <<q, result>>
-vars == << files, k, lazy, pc, fi, li, idxNotFirst, wl, order, ext, pending, space, ci, want, last >>
+          want, last,                      \* what a running lazy load serves: "no" | "lookup" | "getitem"; last answer <<q, result>>
+          touch                            \* scenario: the first access to a lazy alias
+vars == << files, k, lazy, pc, fi, li, idxNotFirst, wl, order, ext, pending, space, ci, want, last, touch >>
 
 (* P-level truth: what the files say *)
 FileWl == [ b \in UNION { { files[f].bcs[i] : i \in DOMAIN files[f].bcs } : f \in DOMAIN files } |->
@@ -85,7 +90,8 @@ Init == /\ \E n \in NFiles : \E fs \in [1 .. n -> [fmt : Fmts, bcs : InjSeqs(All
         /\ (lazy => Len(files) = 1)      \* pending_files holds one file per alias (see docs)
         /\ pc = "construct" /\ fi = 1 /\ li = 1 /\ idxNotFirst = FALSE
         /\ wl = <<>> /\ order = <<>> /\ ext = <<>> /\ pending = 0
-        /\ space = EmptySpace /\ ci = 1 /\ want = FALSE /\ last = None
+        /\ space = EmptySpace /\ ci = 1 /\ want = "no" /\ last = None
+        /\ touch \in (IF lazy THEN Touches ELSE {"lookup"})
 
 ---------------------------------------------------------------------------------------------------
 (* D-level *)
@@ -96,7 +102,7 @@ Construct ==
     /\ IF fi > Len(files) THEN pc' = "ready" /\ UNCHANGED pending
        ELSE IF lazy THEN pending' = fi /\ pc' = "ready"
        ELSE pc' = "detect" /\ UNCHANGED pending
-    /\ UNCHANGED << files, k, lazy, fi, li, idxNotFirst, wl, order, ext, space, ci, want, last >>
+    /\ UNCHANGED << files, k, lazy, fi, li, idxNotFirst, wl, order, ext, space, ci, want, last, touch >>
 
 (* first pass of parse_barcode_file *)
 Detect ==
@@ -104,7 +110,7 @@ Detect ==
     /\ idxNotFirst' = \E i \in DOMAIN files[fi].bcs :
                           LET t == LineTokens(files[fi], fi, i) IN Len(t) = 2 /\ LooksLikeBarcode(t[1])
     /\ li' = 1 /\ pc' = "lines"
-    /\ UNCHANGED << files, k, lazy, fi, wl, order, ext, pending, space, ci, want, last >>
+    /\ UNCHANGED << files, k, lazy, fi, wl, order, ext, pending, space, ci, want, last, touch >>
 
 (* dict assignment keeps the first insertion position *)
 DictSet(f, ord, key, val) == << (key :> val) @@ f, IF key \in DOMAIN f THEN ord ELSE Append(ord, key) >>
@@ -113,7 +119,8 @@ DictSet(f, ord, key, val) == << (key :> val) @@ f, IF key \in DOMAIN f THEN ord 
 ParseLine ==
     /\ pc = "lines"
     /\ IF li > Len(files[fi].bcs)
-       THEN /\ pc' = IF k > 0 \/ lazy THEN "circle" ELSE "nextfile"   \* eager: `if hammingDistanceExpansion > 0`
+       THEN /\ pc' = IF Variant = "getitem_noexpand" /\ want = "getitem" THEN "resolve"      \* (deviation) nothing to resolve
+                     ELSE IF k > 0 \/ lazy THEN "circle" ELSE "nextfile"   \* eager: `if hammingDistanceExpansion > 0`
             /\ ci' = 1 /\ space' = EmptySpace
             /\ UNCHANGED << wl, order, li >>
        ELSE LET t == LineTokens(files[fi], fi, li)
@@ -124,7 +131,7 @@ ParseLine ==
             IN /\ wl' = r[1] /\ order' = r[2]
                /\ li' = li + 1
                /\ UNCHANGED << pc, ci, space >>
-    /\ UNCHANGED << files, k, lazy, fi, idxNotFirst, ext, pending, want, last >>
+    /\ UNCHANGED << files, k, lazy, fi, idxNotFirst, ext, pending, want, last, touch >>
 
 (* hamming_circle(s, n, alphabet): one generator event per (positions, replacements) *)
 Sub(c, r) == IF Variant = "circle_noN" THEN r ELSE IF c = r THEN A ELSE r
@@ -139,7 +146,7 @@ CircleStep ==
                 evs == UNION { { << n, ev >> : ev \in CircleEvents(n) } : n \in 0 .. k }
             IN /\ space' = [ h \in AllStrings |-> space[h] \cup { << e[1], b, e[2] >> : e \in { x \in evs : Cousin(b, x[2]) = h } } ]
                /\ ci' = ci + 1 /\ UNCHANGED pc
-    /\ UNCHANGED << files, k, lazy, fi, li, idxNotFirst, wl, order, ext, pending, want, last >>
+    /\ UNCHANGED << files, k, lazy, fi, li, idxNotFirst, wl, order, ext, pending, want, last, touch >>
 
 LexLess(a, b) == \E i \in 1 .. L : a[i] < b[i] /\ \A j \in 1 .. (i - 1) : a[j] = b[j]
 
@@ -156,15 +163,16 @@ Resolve ==
        IN /\ ext' = IF Variant = "stale_ext" \/ fi = 1 THEN new @@ ext ELSE new
           \* addBarcode with distance 0 re-stores barcodes[alias][b] = its own index: no change
           /\ wl' = [ h \in { x \in kept : dmin(x) = 0 } |-> wl[origin(h)] ] @@ wl
-    /\ IF want THEN pc' = "answer" /\ pending' = 0     \* del pending_files[alias]
-       ELSE pc' = "nextfile" /\ UNCHANGED pending
+    /\ IF want = "lookup" THEN pc' = "answer" /\ pending' = 0 /\ UNCHANGED want    \* del pending_files[alias]
+       ELSE IF want = "getitem" THEN pc' = "ready" /\ pending' = 0 /\ want' = "no"   \* return self.barcodes.get(alias)
+       ELSE pc' = "nextfile" /\ UNCHANGED << pending, want >>
     /\ space' = EmptySpace        \* local variable of expand() goes out of scope
-    /\ UNCHANGED << files, k, lazy, fi, li, idxNotFirst, order, ci, want, last >>
+    /\ UNCHANGED << files, k, lazy, fi, li, idxNotFirst, order, ci, last, touch >>
 
 NextFile ==
     /\ pc = "nextfile"
     /\ fi' = fi + 1 /\ pc' = "construct"
-    /\ UNCHANGED << files, k, lazy, li, idxNotFirst, wl, order, ext, pending, space, ci, want, last >>
+    /\ UNCHANGED << files, k, lazy, li, idxNotFirst, wl, order, ext, pending, space, ci, want, last, touch >>
 
 (* the two table reads of the lookup *)
 Tables(q) == IF q \in DOMAIN wl /\ (Variant # "falsy_index" \/ wl[q] # 0) THEN << wl[q], q, 0 >>
@@ -172,20 +180,27 @@ Tables(q) == IF q \in DOMAIN wl /\ (Variant # "falsy_index" \/ wl[q] # 0) THEN <
 
 Lookup(q) ==
     /\ pc = "ready" /\ last = None
+    /\ (pending # 0 => touch = "lookup")        \* scenario: which access touches the lazy alias first
     /\ IF Tables(q) # None \/ pending = 0
        THEN last' = << q, Tables(q) >> /\ UNCHANGED << pc, want, fi >>
-       ELSE want' = TRUE /\ fi' = pending /\ pc' = "detect" /\ UNCHANGED last      \* parse_pending_barcode_file_of_alias
-    /\ UNCHANGED << files, k, lazy, li, idxNotFirst, wl, order, ext, pending, space, ci >>
+       ELSE want' = "lookup" /\ fi' = pending /\ pc' = "detect" /\ UNCHANGED last      \* parse_pending_barcode_file_of_alias
+    /\ UNCHANGED << files, k, lazy, li, idxNotFirst, wl, order, ext, pending, space, ci, touch >>
+
+(* parser[alias]: loads a pending alias (parse + expand) and returns barcodes.get(alias); no table is read *)
+GetItem ==
+    /\ pc = "ready" /\ last = None /\ pending # 0 /\ touch = "getitem"
+    /\ want' = "getitem" /\ fi' = pending /\ pc' = "detect"
+    /\ UNCHANGED << files, k, lazy, li, idxNotFirst, wl, order, ext, pending, space, ci, last, touch >>
 
 (* the recursive call after the load. The load does not use the queried string and, while the alias is   *)
 (* pending, both tables are empty so every string misses: the string is therefore chosen here (same      *)
 (* behaviours as remembering it from Lookup(q), 1/|strings| of the states).                              *)
 Answer(q) ==
     /\ pc = "answer"
-    /\ last' = << q, Tables(q) >> /\ want' = FALSE /\ pc' = "ready"
-    /\ UNCHANGED << files, k, lazy, fi, li, idxNotFirst, wl, order, ext, pending, space, ci >>
+    /\ last' = << q, Tables(q) >> /\ want' = "no" /\ pc' = "ready"
+    /\ UNCHANGED << files, k, lazy, fi, li, idxNotFirst, wl, order, ext, pending, space, ci, touch >>
 
-Next == Construct \/ Detect \/ ParseLine \/ CircleStep \/ Resolve \/ NextFile \/ \E q \in AllStrings : (Lookup(q) \/ Answer(q))
+Next == Construct \/ Detect \/ ParseLine \/ CircleStep \/ Resolve \/ NextFile \/ GetItem \/ \E q \in AllStrings : (Lookup(q) \/ Answer(q))
 Spec == Init /\ [][Next]_vars
 
 ---------------------------------------------------------------------------------------------------
@@ -208,7 +223,7 @@ TypeOK == /\ pc \in {"construct", "detect", "lines", "circle", "resolve", "nextf
 
 ---------------------------------------------------------------------------------------------------
 (* spec -> code: every initial state is a scenario (barcode directory + constructor arguments)  *)
-Scenario == [ k |-> k, lazy |-> lazy, A |-> A, L |-> L,
+Scenario == [ k |-> k, lazy |-> lazy, touch |-> touch, A |-> A, L |-> L,
               files |-> [ f \in DOMAIN files |-> [ fmt |-> files[f].fmt, bcs |-> files[f].bcs,
                                                    idx |-> [ i \in DOMAIN files[f].bcs |-> IdxOf(files[f].fmt, f, i) ] ] ] ]
 Emit == IF pc = "construct" /\ fi = 1 THEN PrintT("@@SCENARIO " \o ToJson(Scenario)) ELSE TRUE
